@@ -15,6 +15,66 @@ def _mods():
     return Parser, ParseRecv, ParseRecvCb, DParseFrame, EParseId, Device, DeviceChannel
 
 
+def session_description(seed):
+    import random
+    import vsim
+    import refdev
+    r = random.Random(seed)
+    res = {}
+
+    def rand_chans(n):
+        out = []
+        for i in range(n):
+            t = r.choice([2, 3, 6, 10, 11, 12, 17, 18]) | r.choice([0, 0, 0x80, 0x20, 0x40, 0xE0])
+            out.append(dict(en=r.random() < 0.4, type=t, vdim=r.randrange(1, 9), div=r.choice([0, 0, 5, 200, 255]),
+                            mlen=r.choice([0, 0, 1, 4, 16]), name=r.choice(NAMES)[:20]))
+        return out
+
+    def scenario(sim):
+        from nxslib.nxscope import NxscopeHandler
+        from nxslib.comm import CommHandler
+        from nxslib.proto.parse import Parser
+        n = r.randrange(1, 6)
+        dev = refdev.RefDevice(rand_chans(n), flags=r.randrange(4), rxpadding=r.choice([0, 0, 4, 16]))
+        link = refdev.make_link(sim, dev)
+        if r.random() < 0.4:
+            link.write_padding = r.choice([2, 8, 32])        # a padding already configured on the interface
+        high = r.random() < 0.5
+        h = NxscopeHandler(link, Parser()) if high else CommHandler(link, Parser())
+        for session in range(r.randrange(2, 4)):
+            h.connect()
+            d = h.dev
+            got = (d.data.chmax, d.data.flags, d.data.rxpadding,
+                   [(c.data.en, c.data._type, c.data.vdim, c.data.div, c.data.mlen, c.data.name, c.data.dtype, c.data.critical)
+                    for c in (d.channel_get(i) for i in range(d.data.chmax))])
+            want = (len(dev.chans), dev.flags, dev.rxpadding,
+                    [(bool(c["en"]), c["type"], c["vdim"], c["div"], c["mlen"], c["name"], c["type"] & 0x1F, bool(c["type"] & 0x80))
+                     for c in dev.chans])
+            if got != want:
+                res["bad"] = (session, want, got)
+                h.disconnect()
+                return
+            h.disconnect()
+            # the device is reconfigured / replaced between sessions (after disconnect every channel is disabled)
+            m = len(dev.chans) if r.random() < 0.6 else r.randrange(1, 6)
+            dev.chans = rand_chans(m)
+            dev.flags = r.randrange(4)
+            dev.rxpadding = r.choice([0, 0, 4, 16, dev.rxpadding])
+            dev.silent = False
+
+    rr, sim = vsim.run_sim(scenario, real_limit=30.0)
+    if isinstance(rr, BaseException) or sim.errors:
+        return {"key": "session-description", "seed": seed, "case": f"session seed={seed}",
+                "what": "handshake session failed: " + repr(rr)[:300] + repr([(a, repr(b)[:200]) for a, b, _ in sim.errors]),
+                "expected": "-", "observed": "-"}
+    if "bad" in res:
+        k, want, got = res["bad"]
+        return {"key": "session-description", "seed": seed, "case": f"session seed={seed}",
+                "what": f"in session {k + 1} of the same client object the reported description differs from the device's configuration",
+                "expected": repr(want)[:600], "observed": repr(got)[:600]}
+    return None
+
+
 class C06(Prop):
     id = "C06"
     lean_module = "NxsModel.Props.C06"
@@ -107,6 +167,28 @@ class C06(Prop):
         except Exception as e:
             return "err " + exc_name(e)
         raise ValueError(line)
+
+    def extra_checks(self, rng, tier, ev):
+        """whole handshakes under the virtual-time runtime: the description the client reports after connect
+        equals the reference device's configuration — also on a reconnect of the SAME client object after the
+        device's configuration (same or different channel count, rx padding) changed, and with a write padding
+        already configured on the interface"""
+        viol = []
+        n = 0
+        for _ in range(60 if tier == "thorough" else 12):
+            v = session_description(rng.randrange(1 << 30))
+            n += 1
+            if v:
+                viol.append(v)
+                if len(viol) >= 3:
+                    break
+        ev["coverage"]["description_sessions"] = n
+        return viol
+
+    def replay(self, obj):
+        if obj.get("key") == "session-description":
+            return session_description(obj["seed"])
+        return self.oracle(obj["case"])
 
     def oracle(self, line, impl_out=None):
         """device-side encode -> client-side decode gives the configured values; responses are the NxScope encoding"""
